@@ -674,6 +674,57 @@ def s13(rep):
                           detail={"cfg_path": escapes[name][:10]})
 
 
+def s14(rep):
+    """bufNew() gives an empty buffer whose characters are not terminated; bufChars(buf) is a string only after something has
+    been put into it.  A reporter that builds its message in a fresh buffer and jumps to the sending call before the first
+    write hands comsgError whatever the store contained: the diagnostic is garbage, or -- when the first byte happens to be
+    NUL -- no message line at all (comsgReportLine drops an empty text), so the rejection names no position.  In terror.c, for
+    every local initialised with bufNew(): no path from the bufNew to a message call taking bufChars(local) avoids every write
+    into the buffer (any call that is handed the buffer)."""
+    f = common.extract("terror.c", all_trees=True, all_cfg=True)
+    n = 0
+    for name, fn in sorted(f.funcs.items()):
+        if "body" not in fn or not fn.get("file", "").endswith("terror.c") or not fn.get("cfg"):
+            continue
+        news = []
+        for x in walk(fn["body"]):
+            if x["k"] == "BinaryOperator" and x["op"] == "=" and (strip(x["c"][0]) or {}).get("k") == "DeclRefExpr":
+                r = strip(x["c"][1])
+                if r is not None and r["k"] == "CallExpr" and r.get("callee") == "bufNew":
+                    news.append((strip(x["c"][0])["n"], x))
+        if not news:
+            continue
+        cfg = common.CFG(fn)
+        for var, st in news:
+            def sends(e, var=var):
+                return e["k"] == "CallExpr" and (e.get("callee") or "").startswith("comsg") and \
+                    any(y["k"] == "CallExpr" and y.get("callee") == "bufChars" and (strip(y["c"][1]) or {}).get("n") == var
+                        for a in e["c"][1:] for y in walk(a))
+
+            def writes(e, var=var):
+                return e["k"] == "CallExpr" and e.get("callee") not in ("bufChars", "bufNew", "bufFree") and \
+                    not (e.get("callee") or "").startswith("comsg") and \
+                    any((strip(a) or {}).get("k") == "DeclRefExpr" and strip(a)["n"] == var for a in e["c"][1:])
+            if not cfg.events(sends):
+                continue
+            ev = cfg.events(lambda e: e.get("id") == st["id"])
+            if not ev:
+                raise AnalysisBroken("%s: the bufNew of %s is not in the CFG" % (name, var))
+            b, i, _ = ev[0]
+            n += 1
+            p = cfg.path_avoiding(b, sends, writes, src_idx=i)
+            key = "message-buffer-written:%s:%s" % (name, var)
+            if p is None:
+                rep.ok("S14", key)
+            else:
+                rep.violation("S14", key, "terror.c:%d (%s)" % (st["l"], name),
+                              "a path from `%s = bufNew()` reaches the message call with bufChars(%s) before anything has been put "
+                              "into the buffer: an empty Buffer is not terminated, so the diagnostic is whatever the store held -- "
+                              "garbage, or no message line at all when the first byte is NUL (with -M1, -M0, -Mno-details)"
+                              % (var, var), detail={"cfg_path": p[:10]})
+    rep.floor("message buffers built in terror.c", n, 5)
+
+
 def s12(rep):
     """A call is matched against a parameter list by tfSatAsMulti: a loop over the PARAMETERS finds for each one its argument
     (by position or by `name == value` keyword) or its default.  Arguments that no parameter took -- too many positional ones, or
@@ -748,6 +799,7 @@ def run(tier, only=None):
     s11(rep)
     s12(rep)
     s13(rep)
+    s14(rep)
     from . import variant_dispatch
     variant_dispatch.report_absyn(rep, "S10", ["ti_bup.c", "ti_tdn.c", "ti_sef.c", "scobind.c", "abcheck.c"], 180)
     from . import selfcompare
